@@ -8,12 +8,28 @@ stream `classes`: for EVERY class: generated instances from the SCHEMA value spa
                   canonical dump equal; second write byte-identical; bytes valid against the bundled XSD (+ one
                   wrapper element per named complex type); absent members = implied / default value and not the
                   class-level default object.  This oracle runs on the implementation alone.
+                  Added after two seeded defects were missed: every value is written TWICE (outputs identical; first
+                  output, value and - for values that were read - the source document unchanged by the later
+                  write; value read from the first written TREE afterwards = value written); every document is also
+                  read with optional parts REMOVED from the XML (some / all) and into POPULATED instances
+                  (update_from_node on an instance read from another random document / on a generated instance;
+                  State.from_node(node, descriptor), Descriptor.from_node(node, parent_handle)) and compared with
+                  the fresh read; members whose attribute / element is absent in the document must hold the
+                  implied / default value whatever the instance held before.
 stream `props`  : single descriptors (update_xml_value / get_py_value_from_node) on small trees vs. the kind model
-                  XmlStruct.Model.run_prop (vm_compute)."""
+                  XmlStruct.Model.run_prop (vm_compute).
+stream `update` : the same cases, descriptor.update_from_node on an instance whose member is pre-set, vs.
+                  XmlStruct.Instance.run_update; oracle: result = result on a fresh instance.
+stream `own`    : the opaque members (ext:Extension, wsa:ReferenceParameters / Metadata, any) under random sequences
+                  of assign / parse / read / write, content of every document and of the value after every step vs.
+                  XmlStruct.Instance.run_own (element ownership, attach mode Copy); oracle: no step changes an
+                  existing document, a write does not change the value, the new document holds the value."""
 import json
 
 HEADER = ('From Coq Require Import List ZArith NArith Bool.\nImport ListNotations.\n'
           'From SDC Require Import XmlStruct.Model.\nOpen Scope Z_scope.')
+HEADER_I = ('From Coq Require Import List ZArith NArith Bool.\nImport ListNotations.\n'
+            'From SDC Require Import XmlStruct.Model XmlStruct.Instance.\nOpen Scope Z_scope.')
 
 
 def judge_classes(ctx, res, seed, per_class):
@@ -27,7 +43,7 @@ def judge_classes(ctx, res, seed, per_class):
             failing_classes.add(key)
             member = f['member']
             if f['clause'] != 'not schema-valid':
-                member = member.split('.')[-1].split('[')[0]
+                member = member.split('.')[-1].split('[')[0].split(':')[-1]
             ctx.fail(f'classes: {key}: {f["clause"]} ({f["member"]})',
                      {'stream': 'classes', 'clause': f['clause'], 'member': member},
                      {'stream': 'classes', 'case': {'class': key, 'seed': seed, 'per_class': per_class},
@@ -66,7 +82,8 @@ def run(ctx):
 
     # ---------------------------------------------------------------- stream props (model vs descriptors)
     count = ctx.n(1500, 30000)
-    pres = ctx.impl('c05_impl', {'stream': 'props', 'seed': ctx.rng.randrange(1 << 30), 'count': count}, timeout=3000)
+    pseed = ctx.rng.randrange(1 << 30)
+    pres = ctx.impl('c05_impl', {'stream': 'props', 'seed': pseed, 'count': count}, timeout=3000)
     if pres.get('_crash'):
         ctx.broken('correspondence', 'props', pres['stderr'])
     else:
@@ -93,6 +110,73 @@ def run(ctx):
                   none_values=sum(1 for c in good if c['none_value']))
         if good:
             ctx.sample({'stream': 'props', 'case': {k: good[0][k] for k in ('member', 'descriptor', 'input', 'tree', 'val')}})
+        # ------------------------------------------------------------ stream update (populated instance)
+        for c in good:
+            if c['stale']:
+                ctx.fail(f'update: {c["member"]}: update_from_node on a populated instance differs from a fresh instance',
+                         {'stream': 'update', 'clause': 'populated instance differs from fresh instance',
+                          'descriptor': c['descriptor']},
+                         {'stream': 'update', 'case': {'member': c['member'], 'descriptor': c['descriptor'],
+                                                       'seed': pseed, 'count': count},
+                          'oracle': {'verdict': 'fail', 'clause': 'reading into a populated instance = reading into a fresh instance'},
+                          'detail': c['stale']})
+        ulits = [(c['uinput'], c['upd']) for c in good]
+        mism, err = ctx.coq_mism('update', HEADER_I, 'oval_eqb', 'run_update', ulits, shard=250,
+                                 deps=['XmlStruct/Model.vo', 'XmlStruct/Instance.vo'])
+        if err:
+            ctx.broken('correspondence', 'update (coq evaluation)', err)
+        if mism:
+            i = mism[0]
+            model = ctx.coq_eval(HEADER_I, f'run_update {ulits[i][0]}')
+            by_desc = {}
+            for j in mism:
+                by_desc[good[j]['descriptor']] = by_desc.get(good[j]['descriptor'], 0) + 1
+            ctx.broken('correspondence', 'update', {'disagreements': len(mism), 'by_descriptor': by_desc,
+                                                    'first_case': {k: good[i][k] for k in ('member', 'descriptor', 'uinput', 'upd', 'stale')},
+                                                    'model': model[-1500:]})
+        ctx.count('update', len(good), [c['uinput'] for c in good],
+                  reader_returned_none=sum(1 for c in good if c['read_none']),
+                  differs_from_fresh=sum(1 for c in good if c['stale']))
+    # ---------------------------------------------------------------- stream own (element ownership)
+    ocount = ctx.n(600, 12000)
+    oseed = ctx.rng.randrange(1 << 30)
+    ores = ctx.impl('c05_impl', {'stream': 'own', 'seed': oseed, 'count': ocount}, timeout=3000)
+    if ores.get('_crash'):
+        ctx.broken('correspondence', 'own', ores['stderr'])
+    else:
+        good = [c for c in ores['cases'] if 'crash' not in c]
+        for c in ores['cases']:
+            if 'crash' in c:
+                ctx.broken('correspondence', 'own (case crashed)', c['crash'])
+                break
+        for c in good:
+            for clause, where in c['why']:
+                ctx.fail(f'own: {c["member"]}: {clause} ({where})',
+                         {'stream': 'own', 'clause': clause, 'descriptor': c['descriptor']},
+                         {'stream': 'own', 'case': {'member': c['member'], 'descriptor': c['descriptor'], 'ops': c['input'],
+                                                    'seed': oseed, 'count': ocount},
+                          'oracle': {'verdict': 'fail', 'clause': clause, 'where': where}, 'trace': c['trace']})
+        olits = [(c['input'], c['obs']) for c in good]
+        mism, err = ctx.coq_mism('own', HEADER_I, 'obs_eqb', 'run_own', olits, shard=200,
+                                 deps=['XmlStruct/Model.vo', 'XmlStruct/Instance.vo'])
+        if err:
+            ctx.broken('correspondence', 'own (coq evaluation)', err)
+        if mism:
+            i = mism[0]
+            by_desc = {}
+            for j in mism:
+                by_desc[good[j]['descriptor']] = by_desc.get(good[j]['descriptor'], 0) + 1
+            ctx.broken('correspondence', 'own', {'disagreements': len(mism), 'by_descriptor': by_desc,
+                                                 'first_case': {k: good[i][k] for k in ('member', 'descriptor', 'input', 'trace')}})
+        ops = {}
+        for c in good:
+            for k, v in c['ops'].items():
+                ops[k] = ops.get(k, 0) + v
+        ctx.count('own', len(good), [c['input'] + c['obs'] for c in good], histogram=dict(ores['hist']), operations=ops,
+                  two_consecutive_writes_of_nonempty_value=sum(1 for c in good if c['two_writes_of_nonempty_value']),
+                  write_of_value_read_from_document=sum(1 for c in good if c['write_of_value_read_from_document']))
+        if good:
+            ctx.sample({'stream': 'own', 'case': {k: good[0][k] for k in ('member', 'descriptor', 'input', 'obs')}})
     if ctx.thorough:
         hits = ctx.gate_grep(['XmlStruct', 'Common'])
         if hits:
@@ -103,8 +187,15 @@ def run(ctx):
              'parsed, read, compared by a canonical dump (recursive over _props, current-timestamp excluded), written again '
              '(bytes identical), validated against the bundled XSD and checked for implied/default values of absent '
              'members; props: one descriptor per case (all descriptor classes in rotation), update_xml_value + '
-             'get_py_value_from_node vs XmlStruct.Model.run_prop; distinct = distinct serialised instances that passed (sha1 of the bytes) / distinct '
-             'descriptor cases',
+             'get_py_value_from_node vs XmlStruct.Model.run_prop; update: the same descriptor cases, update_from_node on an '
+             'instance whose member is pre-set vs XmlStruct.Instance.run_update, oracle = equal to the result on a fresh '
+             'instance; own: random assign/parse/read/write sequences on the opaque members vs XmlStruct.Instance.run_own, '
+             'oracle = no step changes an existing document, a write leaves the value alone and the new document holds '
+             'its content; classes additionally: every value written twice (outputs, earlier tree, value, source document '
+             'compared), every document read with optional parts removed and into populated instances / through the '
+             'from_node variants with a pre-set object, compared with the fresh read and with the implied/default values; '
+             'distinct = distinct serialised instances that passed (sha1 of the bytes) / distinct descriptor cases / '
+             'distinct operation traces',
         assumptions=['scalars are restricted to values whose text form is exact today (timestamps / durations multiples of '
                      '125 ms, decimals without exponent or trailing zeros): converter exactness is C18',
                      'mex_types.Metadata.from_node takes the PARENT of the wsx:Metadata element (harness wraps it); '
@@ -121,11 +212,21 @@ def run(ctx):
                       'implementation by the classes stream, not proved)',
                       'members bound to the node itself (msg_types Mds/Vmd/Channel.container, GetMdibResponse.Mdib): '
                       'outside wf_class, round-trip checked by the classes stream only',
-                      'HeaderInformationBlock.reference_parameters and other attributes that are not declared properties'])
+                      'HeaderInformationBlock.reference_parameters and other attributes that are not declared properties',
+                      'element ownership is modelled per opaque member (documents = content of the member\'s container '
+                      'node); ownership inside nested values is exercised by the classes stream only'])
 
 
 def replay(ctx, rep):
     case = rep.get('case', {})
+    if rep.get('stream') in ('update', 'own'):
+        stream = 'props' if rep['stream'] == 'update' else 'own'
+        res = ctx.impl('c05_impl', {'stream': stream, 'seed': case.get('seed', 1), 'count': case.get('count', 600)})
+        hits = [c for c in res.get('cases', []) if c.get('member') == case.get('member') and
+                (c.get('stale') if stream == 'props' else c.get('why'))]
+        print(json.dumps([{k: c.get(k) for k in ('member', 'descriptor', 'stale', 'why', 'input', 'trace')} for c in hits[:3]],
+                         indent=1)[:6000])
+        return 1 if hits else 0
     res = ctx.impl('c05_impl', {'stream': 'classes', 'seed': case.get('seed', 1), 'per_class': case.get('per_class', 8),
                                 'only': [case.get('class')]})
     print(json.dumps(res, indent=1)[:6000])
